@@ -1,6 +1,9 @@
 package c14
 
 import (
+	"crypto/md5"
+	"crypto/sha1"
+	"encoding/hex"
 	"fmt"
 	"strings"
 
@@ -213,6 +216,10 @@ func genClientCase(r *hx.Rand) []string {
 		case 2, 3:
 			script = append(script, fmt.Sprintf("cget %d %s %d", z, b.hash, b.size))
 		case 4:
+			if r.Chance(1, 2) {
+				script = append(script, genMixedFM(r, blobs)...)
+				break
+			}
 			line := "cfm"
 			for j, k := 0, r.Range(0, 4); j < k; j++ {
 				x := blobs[r.Intn(len(blobs))]
@@ -222,4 +229,40 @@ func genClientCase(r *hx.Rand) []string {
 		}
 	}
 	return script
+}
+
+// hashAs is the digest of data under another digest function.
+func hashAs(fn string, data []byte) string {
+	switch fn {
+	case "md5":
+		h := md5.Sum(data)
+		return hex.EncodeToString(h[:])
+	case "sha1":
+		h := sha1.Sum(data)
+		return hex.EncodeToString(h[:])
+	}
+	return sha(data)
+}
+
+// genMixedFM: a FindMissing set that spans digest functions and instance names (the client has
+// to split it into one FindMissingBlobs call per function and instance name); some of the
+// objects are stored first.
+func genMixedFM(r *hx.Rand, blobs []blob) []string {
+	var script []string
+	fns := []string{"sha256", "sha256", "md5", "sha1"}
+	insts := []string{"-", "-", "a", "a_b", "c"}
+	line := "cfm"
+	for j, k := 0, r.Range(1, 6); j < k; j++ {
+		x := blobs[r.Intn(len(blobs))]
+		fn := fns[r.Intn(len(fns))]
+		if r.Chance(1, 3) {
+			insts = insts[:3] // few instance names: functions are more likely to share one
+		}
+		h := hashAs(fn, x.data)
+		if fn != "sha256" && r.Chance(1, 3) {
+			script = append(script, fmt.Sprintf("store %s %d %s", h, x.size, hexs(x.data)))
+		}
+		line += fmt.Sprintf(" ; %s.%s %s %d", fn, insts[r.Intn(len(insts))], h, x.size)
+	}
+	return append(script, line)
 }
